@@ -187,6 +187,11 @@ type htlc struct {
 	resolved  bool // receiver called Settle/Fail
 	resSigned bool // resolution covered by a commit_sig of the receiver
 	removed   bool // offerer saw the resolution in FwdPkg.SettleFails
+	// addRestored / resRestored: the in-memory log entry of the add / of the
+	// resolution was rebuilt from disk by a reload (rather than created by the
+	// API call). Part of the canonical key: a restore bug makes the two differ.
+	addRestored bool
+	resRestored bool
 	preimage  [32]byte
 	hash      [32]byte
 	// seen[o] = 1 + first height of chain owner o on which it appeared (0 = never)
@@ -205,6 +210,8 @@ type World struct {
 	// fee updates
 	feeSent   int
 	feeSigned int
+	// feeRestored[k]: the opener's log entry of fee update k was rebuilt from disk.
+	feeRestored []bool
 	cuts      int
 	gross     [2]int64 // gross shares in satoshi (before opener fee/anchors)
 	hist      []string
@@ -300,7 +307,8 @@ func New(p Params, report Reporter, stats *Stats) (*World, error) {
 	if base == "" {
 		base = os.TempDir()
 	}
-	w.dir = filepath.Join(base, fmt.Sprintf("w%d", dirSeq.Add(1)))
+	w.dir = filepath.Join(base, fmt.Sprintf("w%d.%d", os.Getpid(), dirSeq.Add(1)))
+	_ = os.RemoveAll(w.dir)
 
 	keys := [2][]*btcec.PrivateKey{privs(0x21), privs(0x83)}
 	cfgs := [2]channeldb.ChannelConfig{
@@ -795,6 +803,7 @@ func (w *World) local(i int, op string) error {
 		}
 		m.ID = id
 		h.id, h.sent = id, true
+		h.addRestored = false
 		mm := wmsg{kind: "add", k: k, m: m}
 		p.unsignedSent = append(p.unsignedSent, mm)
 		w.send(1-i, mm)
@@ -806,6 +815,7 @@ func (w *World) local(i int, op string) error {
 			return nil
 		}
 		h.resolved = true
+		h.resRestored = false
 		mm := wmsg{kind: "settle", k: k, m: &lnwire.UpdateFulfillHTLC{ChanID: chanID, ID: h.id, PaymentPreimage: h.preimage}}
 		p.unsignedSent = append(p.unsignedSent, mm)
 		w.send(1-i, mm)
@@ -817,6 +827,7 @@ func (w *World) local(i int, op string) error {
 			return nil
 		}
 		h.resolved = true
+		h.resRestored = false
 		mm := wmsg{kind: "fail", k: k, m: &lnwire.UpdateFailHTLC{ChanID: chanID, ID: h.id, Reason: []byte("verif-fail")}}
 		p.unsignedSent = append(p.unsignedSent, mm)
 		w.send(1-i, mm)
@@ -829,6 +840,7 @@ func (w *World) local(i int, op string) error {
 			return nil
 		}
 		h.resolved = true
+		h.resRestored = false
 		mm := wmsg{kind: "malformed", k: k, m: &lnwire.UpdateFailMalformedHTLC{ChanID: chanID, ID: h.id, ShaOnionBlob: sha, FailureCode: lnwire.CodeInvalidOnionKey}}
 		p.unsignedSent = append(p.unsignedSent, mm)
 		w.send(1-i, mm)
@@ -847,6 +859,10 @@ func (w *World) local(i int, op string) error {
 			return nil
 		}
 		w.feeSent++
+		for len(w.feeRestored) < w.feeSent {
+			w.feeRestored = append(w.feeRestored, false)
+		}
+		w.feeRestored[w.feeSent-1] = false
 		mm := wmsg{kind: "fee", k: k, m: &lnwire.UpdateFee{ChanID: chanID, FeePerKw: uint32(rate)}}
 		p.unsignedSent = append(p.unsignedSent, mm)
 		w.send(1-i, mm)
@@ -1017,7 +1033,14 @@ func (w *World) Key() string {
 	for _, h := range w.h {
 		fmt.Fprintf(&b, " %v%v%v%v%v%v%v:%d.%d.%d.%d", b2i(h.sent), b2i(h.refused), b2i(h.addSigned), b2i(h.locked), b2i(h.resolved), b2i(h.resSigned), b2i(h.removed), h.seen[0], h.seen[1], h.gone[0], h.gone[1])
 	}
-	fmt.Fprintf(&b, " f%d/%d c%d", w.feeSent, w.feeSigned, w.cuts)
+	for _, h := range w.h {
+		// provenance only matters while the entry can still influence a
+		// commitment that is not yet irrevocable on both sides
+		if !h.removed {
+			fmt.Fprintf(&b, " p%d%d", b2i(h.addRestored), b2i(h.resRestored))
+		}
+	}
+	fmt.Fprintf(&b, " f%d/%d c%d r%v", w.feeSent, w.feeSigned, w.cuts, w.feeRestored)
 	return b.String()
 }
 
